@@ -116,6 +116,7 @@ func C16(p *load.Prog, r *oblig.Run) {
 	c16MapLoops(p, r)
 	c16OperandSides(p, r)
 	c16NoEarlyAnswer(p, r)
+	c16OperandInput(p, r)
 	c16Variables(p, r)
 	ops, err := extractOperators(p)
 	if err != nil {
